@@ -350,6 +350,37 @@ impl Planner {
                 }
             }
         }
+        // B3b: universal covers (3-spheres of many shapes) of all small finite-group symbols
+        for (k, e) in corpus.finite_small.iter().enumerate() {
+            let reps = if thorough { 6 } else { 1 };
+            for r in 0..reps {
+                let (mut s, mut rng) = self.base_spec(&format!("{}/fuc", e.id), &e.text, Op::SimplifyFuc);
+                if r > 0 || k % 2 == 1 {
+                    s.cxf.push(Xf::Shuffle(rng.next_u64()));
+                }
+                s.repr = Self::c16_repr(&mut rng);
+                s.expect = Expect::SameAsInput;
+                self.perturb(&mut s, &mut rng, true);
+                specs.push(s);
+            }
+        }
+        // B3c: closed manifolds with non-trivial finite fundamental group
+        // (torsion-free covers of finite-group symbols): topology must be kept
+        for (e, word) in corpus.manifold_covers.iter() {
+            let reps = if thorough { 40 } else { 4 };
+            for r in 0..reps {
+                let (mut s, mut rng) = self.base_spec(&format!("{}/sub", e.id), &e.text, Op::SimplifySelf);
+                s.xf.push(Xf::SubCover(word.clone()));
+                if r > 0 {
+                    s.cxf.push(Xf::Shuffle(rng.next_u64()));
+                }
+                s.repr = Self::c16_repr(&mut rng);
+                s.expect = Expect::SameAsInput;
+                s.deep = r == 0;
+                self.perturb(&mut s, &mut rng, true);
+                specs.push(s);
+            }
+        }
         // B4: branch-free members of G are closed manifolds themselves
         for e in corpus.g.iter() {
             let s0 = match Sym::parse(&e.text) {
